@@ -43,6 +43,7 @@ struct broker {
     long long malformed_from_client = 0;
 
     void reset() { *this = broker {}; }
+    bool has_live_connection() const { for (auto& [id, c] : conns) if (c.connected && !c.closed && !c.poisoned) return true; return false; }
 
     static std::string msg_token(const std::string& payload) {
         auto p = payload.find('|');
@@ -269,6 +270,7 @@ struct broker {
     }
     int publish(int c, const std::string& topic, const std::string& payload, int qos, int retain, const ref::props_t& props) {
         auto it = conns.find(c); if (it == conns.end() || it->second.closed || it->second.poisoned) return -1;
+        if (!it->second.connected) return -1;      // a conformant broker sends nothing before its CONNACK
         ref::packet pk; pk.type = ref::PUBLISH; pk.topic = topic; pk.payload = payload; pk.qos = qos; pk.retain = retain; pk.props = props;
         if (qos) { pk.pid = free_out_pid(); outbound.push_back(out_msg { pk.pid, qos, msg_token(payload), pk, 0 }); }
         log_send(c, pk, 0, msg_token(payload));
